@@ -179,7 +179,7 @@ def generate():
         yield ("deref-field-missing", {"noDerefField"}, item("struct", "S", tattrs, [("", "unit", [], [])]))
         yield ("deref-field-missing", {"noDerefField"}, item("enum", "E", tattrs, []))
     for shape in SHAPES:
-        for n in (2, 3):
+        for n in (2, 3, 4, 5):
             # several fields, none of the target type, no marker
             yield ("into-field-missing", {"noIntoField"}, item("struct", "S", ["#[educe(Into(u8))]"], [("", shape, [], plain_fields(shape, n, "u16"))]))
             yield ("into-field-missing", {"noIntoField"}, item("enum", "E", ["#[educe(Into(u8))]"], [("A", shape, [], plain_fields(shape, n, "u16"))]))
